@@ -47,3 +47,20 @@ def close(a, b, rtol=1e-10, atol=0.0, scale=None) -> bool:
         return a == b
     s = max(abs(a), abs(b)) if scale is None else scale
     return abs(a - b) <= atol + rtol * s
+
+
+def far(diff, tol):
+    """NaN-safe `abs(diff) > tol` for scalars: a non-finite difference counts as far"""
+    return not (abs(diff) <= tol)
+
+
+def arr_far(a, b, tol):
+    """NaN-safe `max|a - b| > tol` for arrays (tol scalar or array): shape mismatch and non-finite entries count as far"""
+    import numpy as np
+    a, b = np.asarray(a), np.asarray(b)
+    if a.shape != b.shape:
+        return True
+    if a.size == 0:
+        return False
+    with np.errstate(invalid="ignore"):
+        return not bool(np.all(np.abs(a - b) <= tol))
